@@ -87,6 +87,10 @@ func (dr *DialogueRunner) isWaitingForChoice() bool {
 // Else, if no other error is encountered, the next DialogueElement to display is returned.
 // If the Dialogue has ended, then both return values will be nil.
 func (dr *DialogueRunner) Next(choice int) (*DialogueElement, error) {
+	// Statements that show nothing (set, jump, if, call, ...) are run one after the other by coming back here,
+	// not by recursion: its depth grew with every such statement, and a long enough silent loop of a script
+	// ended in a stack overflow, which kills the process.
+again:
 	if dr.commandErrChan != nil {
 		select {
 		case err := <-dr.commandErrChan:
@@ -118,7 +122,7 @@ func (dr *DialogueRunner) Next(choice int) (*DialogueElement, error) {
 	nextStatement, ok := statementsToRun.nextStatement()
 	if !ok {
 		dr.statementsToRun.Pop()
-		return dr.Next(choice)
+		goto again
 	}
 
 	switch {
@@ -168,17 +172,17 @@ func (dr *DialogueRunner) Next(choice int) (*DialogueElement, error) {
 		if err := dr.executeSetStatement(nextStatement.SetStatement); err != nil {
 			return nil, fmt.Errorf("failed to execute set statement: %w", err)
 		}
-		return dr.Next(choice)
+		goto again
 	case nextStatement.JumpStatement != nil:
 		if err := dr.executeJumpStatement(nextStatement.JumpStatement); err != nil {
 			return nil, fmt.Errorf("failed to execute jump statement: %w", err)
 		}
-		return dr.Next(choice)
+		goto again
 	case nextStatement.IfStatement != nil:
 		if err := dr.executeIfStatement(nextStatement.IfStatement); err != nil {
 			return nil, fmt.Errorf("failed to execute if statement: %w", err)
 		}
-		return dr.Next(choice)
+		goto again
 	case nextStatement.CommandStatement != nil:
 		if stop, err := dr.executeCommandStatement(nextStatement.CommandStatement); err != nil {
 			return nil, fmt.Errorf("failed to execute command statement: %w", err)
@@ -188,17 +192,17 @@ func (dr *DialogueRunner) Next(choice int) (*DialogueElement, error) {
 		} else if dr.commandErrChan != nil {
 			return nil, ErrWaitingForCommandCompletion
 		}
-		return dr.Next(choice)
+		goto again
 	case nextStatement.CallStatement != nil:
 		if err := dr.executeCallStatement(nextStatement.CallStatement); err != nil {
 			return nil, fmt.Errorf("failed to execute call statement: %w", err)
 		}
-		return dr.Next(choice)
+		goto again
 	case nextStatement.DeclareStatement != nil:
 		if err := dr.executeDeclareStatement(nextStatement.DeclareStatement); err != nil {
 			return nil, fmt.Errorf("failed to execute declare statement: %w", err)
 		}
-		return dr.Next(choice)
+		goto again
 	}
 
 	return nil, errors.New("encountered an unsupported type of statement")
